@@ -36,6 +36,10 @@ def alphabet(N):
         ("GetPreimages", [0] * N if N == 1 else [1] * N),
         ("SetBounds", (list(b1[0]), list(b1[1]))),
         ("SetBounds", (np.array(b2[0]), np.array(b2[1]))),
+        # the unit cube itself: the box <-> cube maps are the identity there (a shortcut waiting to alias)
+        ("SetBounds", (np.array([-0.5] * N), np.array([0.5] * N))),
+        ("GetImage", 0.0),
+        ("GetInverseImage", np.array([0.3 - 0.11 * i for i in range(N)], dtype=np.double)),
     ]
     return ops
 
